@@ -12,10 +12,18 @@ class StubError(Exception):
     pass
 
 
+XS = [1, 2, -3, 4, 5, 6]                 # the x values of the normal bindings, in key-class order
+REAL = {1: 1010, 2: 2.5, -3: 'neg three', 4: None, 5: 1050, 6: 'six'}   # scalars: the sqlite fallback stores nothing else
+
+
 def _value(x, y):
+    """the deterministic result of the stubs: rich values (int, float, str, None, tuple) on purpose"""
     if not isinstance(x, (int, float)):
-        x = 41          # any "unkeyable" argument (list, BadRepr instance)
-    return 1000 + 10 * x + y
+        return 1410          # any "unkeyable" argument (list, BadRepr instance)
+    base = REAL.get(x, ('other', x))
+    if y == 0:
+        return base
+    return ('y', x, y)
 
 
 def _body(name, x, y):
@@ -68,20 +76,52 @@ GFUNCS = [g1, g2, g3]
 # value depends on round(x) only (used with tol=0)
 def h1(x, y=0):
     _body('h1', x, y)
-    return _value(round(x), 0)
+    return _value(int(round(x)), 0)
 
 
 def h2(x, y=0):
     _body('h2', x, y)
-    return _value(round(x), 0)
+    return _value(int(round(x)), 0)
 
 
 def h3(x, y=0):
     _body('h3', x, y)
-    return _value(round(x), 0)
+    return _value(int(round(x)), 0)
 
 
 HFUNCS = [h1, h2, h3]
+
+
+# tol=1 with a float default that callers never pass (the default must not be rounded differently by key())
+def t1(x, y=0.125):
+    _body('t1', x, y)
+    return _value(int(round(x)), 0)
+
+
+def t2(x, y=0.125):
+    _body('t2', x, y)
+    return _value(int(round(x)), 0)
+
+
+def t3(x, y=0.125):
+    _body('t3', x, y)
+    return _value(int(round(x)), 0)
+
+
+TFUNCS = [t1, t2, t3]
+
+
+class BadValue(object):
+    """an argument whose encoding fails with ValueError (not TypeError) under every keymap"""
+    def __repr__(self):
+        raise ValueError('BadValue cannot be represented')
+    __str__ = __repr__
+
+    def __hash__(self):
+        raise ValueError('BadValue is unhashable')
+
+    def __reduce_ex__(self, protocol):
+        raise ValueError('BadValue cannot be pickled')
 
 
 class BadRepr(object):
